@@ -78,7 +78,8 @@ func c16PosScan(c *c16Case, opts *syntax.FileOptions) (diff string) {
 			asc[pc] = fn.Position(uint32(pc))
 		}
 		check := func(what string, pc int, got syntax.Position) string {
-			if got != asc[pc] {
+			// (compare what a position denotes: two programs hold the file name in different string objects)
+			if got.Line != asc[pc].Line || got.Col != asc[pc].Col || got.Filename() != asc[pc].Filename() {
 				return fmt.Sprintf("function %s: Position(%d) = %d:%d in the ascending scan but %d:%d %s", fn.Name, pc, asc[pc].Line, asc[pc].Col, got.Line, got.Col, what)
 			}
 			return ""
